@@ -1058,7 +1058,9 @@ func (m *repoManager) deleteRepo(uuid dvid.UUID, passcode string) error {
 		delete(m.versionToUUID, v)
 	}
 	m.idMutex.Unlock()
-	return nil
+
+	// Persist the pruned maps, or the deleted UUIDs are known again after a restart.
+	return m.putCaches()
 }
 
 // ---- Repo-level properties functions -------
@@ -1732,7 +1734,11 @@ func (m *repoManager) hideBranch(uuid dvid.UUID, branch string) error {
 	r.Unlock()
 	m.repoMutex.Unlock()
 	m.cacheBranchHeads(r)
-	return r.save()
+	if err := r.save(); err != nil {
+		return err
+	}
+	// Persist the pruned maps, or the hidden UUIDs are known again after a restart.
+	return m.putCaches()
 }
 
 func (m *repoManager) makeMaster(newMasterUUID dvid.UUID, oldMasterBranchName string) error {
